@@ -288,6 +288,14 @@ type aclWorldState struct {
 	links     map[string]map[string]bool
 	midAt     int // the ordinal of the client RPC before which the next ACL write of the plan is committed
 	lastFault time.Time
+	// lastGood: per token secret, the decision table of the client resolver's last resolution that was judged
+	// fresh and found equal to the reference, and when that was
+	lastGood map[string]goodTable
+}
+
+type goodTable struct {
+	at    time.Time
+	table []bool
 }
 
 // ---- reference semantics
@@ -726,6 +734,30 @@ func (s *aclWorldState) judgeResolve(i int, st Step) *simkit.Violation {
 		}
 		return nil
 	}
+	// C08, during an outage: with the extend-cache down policy an agent that cannot reach the servers keeps
+	// deciding from what it has cached, however old. A token that was resolved while the servers answered, and
+	// none of whose objects was written since, therefore decides exactly as it did then (the client caches are
+	// far larger than this universe: nothing is evicted).
+	if st.Flag && faulted && s.down == "extend-cache" {
+		if lg, ok := s.lastGood[st.Text]; ok {
+			quiet := true
+			for _, id := range s.reachable(tok) {
+				if t, ok := s.objTime[id]; ok && !t.Before(lg.at) {
+					quiet = false
+				}
+			}
+			if quiet {
+				s.r.Hit("probe.outage-decisions-compared")
+				for k, p := range aclProbes() {
+					if got := askAuthorizer(authz, p); got != lg.table[k] {
+						return mk("C08", "decision-mismatch", "outage-keeps-the-decisions-of-the-cached-policies",
+							fmt.Sprintf("token %s, down policy extend-cache, %d RPCs of this resolution failed, nothing the token is built from was written since its last good resolution (%s ago): %s %q %s is now allowed=%v, it was %v",
+								tok.AccessorID, s.rpcErrs, now.Sub(lg.at), p.kind, p.name, p.need, got, lg.table[k]))
+					}
+				}
+			}
+		}
+	}
 	// C08: the decision table
 	if st.Flag {
 		// what the caches may still hold of older versions: nothing, for objects at rest for longer than the
@@ -747,6 +779,15 @@ func (s *aclWorldState) judgeResolve(i int, st Step) *simkit.Violation {
 	}
 	rules, desc := s.effectiveRules(tok, "dc1")
 	s.r.Hit("probe.decision-tables-compared")
+	var table []bool
+	defer func() {
+		if st.Flag && len(table) == len(aclProbes()) {
+			if s.lastGood == nil {
+				s.lastGood = map[string]goodTable{}
+			}
+			s.lastGood[st.Text] = goodTable{at: now, table: table}
+		}
+	}()
 	for _, p := range aclProbes() {
 		want := refDecide(rules, p.kind, p.name, p.need, s.defAllow)
 		if p.kind == "intention" {
@@ -755,7 +796,9 @@ func (s *aclWorldState) judgeResolve(i int, st Step) *simkit.Violation {
 		if p.need == "readall" {
 			want = refReadAll(rules, p.kind, s.defAllow)
 		}
-		if got := askAuthorizer(authz, p); got != want {
+		got := askAuthorizer(authz, p)
+		table = append(table, got)
+		if got != want {
 			return mk("C08", "decision-mismatch", "decision-equals-reference-semantics",
 				fmt.Sprintf("token %s: %s %q %s is allowed=%v, the reference semantics say %v (default policy allow=%v)\n  rules in effect:\n    %s",
 					tok.AccessorID, p.kind, p.name, p.need, got, want, s.defAllow, strings.Join(desc, "\n    ")))
